@@ -28,6 +28,20 @@ class Tok(Sym):
     def __repr__(self):
         return "Tok" + repr(self.what)
 
+    def sym_getattr(self, ex, name):
+        if name in ("strip", "lstrip", "rstrip", "replace", "removeprefix", "removesuffix", "lower", "upper", "split", "rsplit", "partition", "rpartition", "format", "join"):
+            # some other string derived from this one: not the value the statement asks for
+            return NativeStub(lambda *a, **k: Tok(f"str.{name}-of", self, *a), f"str.{name}")
+        raise Unsupported(f"attribute .{name} of an opaque string")
+
+    def sym_binop(self, ex, op, other, reflected=False):
+        if op == "Add":
+            return Tok("concat", other, self) if reflected else Tok("concat", self, other)
+        raise Unsupported(f"{op} on an opaque string")
+
+    def sym_getitem(self, ex, k):
+        return Tok("subscript-of", self, repr(k))
+
     def same(self, other):
         return isinstance(other, Tok) and len(self.what) == len(other.what) and all(
             (a.same(b) if isinstance(a, Tok) else (z3.eq(a, b) if z3.is_expr(a) and z3.is_expr(b) else a is b or (not z3.is_expr(a) and not z3.is_expr(b) and a == b)))
